@@ -59,6 +59,7 @@ def run_shards(binpath, check, tier, nshards, extra_args, wdir, seed, wall_cap):
     t0 = time.time()
 
     skips = {}
+    hangs = {}
 
     def start(k, resume_after=None, gen=0):
         out = os.path.join(wdir, "shard_%d_%d.json" % (k, gen))
@@ -84,9 +85,28 @@ def run_shards(binpath, check, tier, nshards, extra_args, wdir, seed, wall_cap):
             rc = p.poll()
             if rc is None:
                 if time.time() - t0 > wall_cap:
-                    p.kill()
-                    p.wait()
-                    die("shard %d exceeded the wall cap of %ds" % (k, wall_cap))
+                    # out of time: stop every worker, keep what they had checkpointed; with failures
+                    # already observed (deaths, hangs, recorded violations) that is still a verdict,
+                    # without any it is a machinery error (the check could not finish)
+                    for kk in list(procs):
+                        pp, oo = procs[kk][0], procs[kk][1]
+                        pp.kill()
+                        pp.wait()
+                        if os.path.exists(oo + ".ckpt"):
+                            results.setdefault(kk, []).append(oo + ".ckpt")
+                    unfinished = sorted(procs)
+                    procs.clear()
+                    seen_fail = bool(deaths)
+                    for paths in results.values():
+                        for path in paths:
+                            try:
+                                seen_fail = seen_fail or bool(json.load(open(path)).get("failures"))
+                            except Exception:
+                                pass
+                    if not seen_fail:
+                        die("shard %d exceeded the wall cap of %ds" % (k, wall_cap))
+                    capped.append("wall cap of %ds reached; shards %s unfinished" % (wall_cap, unfinished))
+                    break
                 continue
             del procs[k]
             if rc == 0 and os.path.exists(out):
@@ -118,6 +138,14 @@ def run_shards(binpath, check, tier, nshards, extra_args, wdir, seed, wall_cap):
                 restarts += 1
             else:
                 tagged_restarts += 1
+            if rc == 86:
+                # every hung case costs the watchdog limit; two per shard are enough for a verdict
+                hangs[k] = hangs.get(k, 0) + 1
+                if hangs[k] >= 2:
+                    capped.append("shard %d stopped after %d hung cases" % (k, hangs[k]))
+                    if os.path.exists(out + ".ckpt"):
+                        results.setdefault(k, []).append(out + ".ckpt")
+                    continue
             if restarts > 8 * nshards or tagged_restarts > 3000:
                 # a defect that kills the worker on very many cases: stop restarting, keep the
                 # deaths observed so far as the verdict (the run is reported as capped)
